@@ -73,6 +73,7 @@ type Chain struct {
 	Stat      []slotSpec `json:"stat"`
 	ExitPanic bool       `json:"exit_handler_panics"`
 	ExitErr   bool       `json:"exit_handler_returns_error"` // an exit handler that fails without panicking
+	AtEpoch   bool       `json:"clock_at_zero"`              // the (virtual) clock reads 0 ms: a time like any other
 	Follow    int        `json:"follow_up_entries"`
 	Pre       int        `json:"earlier_blocked_entries"` // history before the entry under test
 }
@@ -207,7 +208,11 @@ func snap(b *base.BlockError) blkSnap {
 
 // evaluate runs one chain program and returns (outcome key, violation)
 func evaluate(c Chain) (out string, viol string) {
-	env.ResetAll(env.DefaultGeometry, 1700000000000)
+	if c.AtEpoch {
+		env.ResetAll(env.DefaultGeometry, 0)
+	} else {
+		env.ResetAll(env.DefaultGeometry, 1700000000000)
+	}
 	log = log[:0]
 	sc := build(c)
 	// history: earlier entries blocked with a full cause through the pooled result; their context and
@@ -450,7 +455,7 @@ func run(c *props.Ctx) {
 					return
 				}
 				// the exit-handler / follow-up dimensions are spread deterministically over the chains
-				ch := Chain{Prep: p, Check: ck, Stat: st, ExitPanic: (idx/3)%3 == 0, ExitErr: (idx/3)%3 == 2, Follow: idx % 3}
+				ch := Chain{Prep: p, Check: ck, Stat: st, ExitPanic: (idx/3)%3 == 0, ExitErr: (idx/3)%3 == 2, Follow: idx % 3, AtEpoch: (idx/9)%2 == 1}
 				out, v := evaluate(ch)
 				c.R.Evaluations++
 				c.R.Transitions++
